@@ -122,6 +122,7 @@ package dawn
 //@ (declare-fun tlabel (Iface) Ref)
 //@ >>>
 //@ func (dawn.Target).Label
+//@   ensures result != nil
 //@   pure
 //@   ensures result == tlabel(this)
 //@ func (dawn.Target).Doc
@@ -554,9 +555,22 @@ package dawn
 //@   modifies heap, n_loadpkg
 //@ func (dawn.Events).LoadDone
 //@   modifies heap
-//@ func (*dawn.Project).link
-//@   trusted
+// link makes every registered generated source depend on its generator: an iteration over a declared
+// output either finds no source registered under that path, or leaves that source with a generator
+// (or returns the "multiple generators" error). sourceFile.dependencies then reports the generator
+// as the source's only dependency, which is what orders generation before use and propagates
+// `changed` from the generator to the consumers of the file.
+//@ func (dawn.Target).generates
 //@   modifies heap
+//@ func (*dawn.Project).link
+//@   requires proj != nil
+//@   modifies heap
+//@   loop over t.target.generates(): step links-the-generated-source: when true ensures !ok || f.target.(*dawn.sourceFile).generator != nil
+//@ func (*dawn.sourceFile).dependencies
+//@   uses (*label.Label).String variant function-of-fields
+//@   requires f != nil
+//@   ensures  generator-is-the-dependency: f.generator != nil ==> (len(result) == 1 && result[0] == lstr4(f.generator.Kind, f.generator.Project, f.generator.Package, f.generator.Name))
+//@   ensures  plain-source-has-none: f.generator == nil ==> len(result) == 0
 //@ func (*dawn.Project).saveIndex
 //@   trusted
 //@   modifies heap
